@@ -232,7 +232,7 @@ def reify_stages(inv, refute):
 
 
 def c04(tier, seed):
-    return reify_stages(["OkIsValid"], [("PtrDefaultSkipsRange", ["OkIsValid"])])
+    return reify_stages(["OkIsValid"], [("PtrDefaultSkipsRange", ["OkIsValid"]), ("UncheckedCarriedOver", ["OkIsValid"])])
 
 
 def c13(tier, seed):
@@ -243,13 +243,20 @@ def c14(tier, seed):
     return reify_stages(["ErrNamesSetting"], [("DefaultErrPathNotNested", ["ErrNamesSetting"]), ("MapElemUnaddressable", ["ErrNamesSetting"])]) + [
         MC("Gen_Faults", dict(Groups="={}"), invariants=["SitesExist"], label="MC_Faults/sites"),
         GEN("Gen_Faults", {}, "faults", label="Gen_Faults/types-x-sites-x-fault-kinds", min_cases=20000),
+        pack_trace(tier),
     ]
+
+
+def pack_trace(tier):
+    return TRACE("Trace_Pack", "pack", n=2000 if tier == "quick" else 40000, label="Trace_Pack/random-types-values-faults",
+                 trace_file="trace_pack.ndjson")
 
 
 def c06(tier, seed):
     return [
         MC("Gen_Pack", dict(Groups="={}"), invariants=["Identity", "PackOK"], label="MC_Pack/identity"),
         GEN("Gen_Pack", {}, "pack", label="Gen_Pack/struct-types-x-values", min_cases=30000),
+        pack_trace(tier),
     ]
 
 
@@ -265,6 +272,12 @@ def c11(tier, seed):
             label="Gen_VarExp/pure-and-concurrent-reads", min_cases=10000),
         GEN("Gen_VarExp", vc, "readers", gen_family="varexp", replay_args=["--goroutines", "8", "--every", "8" if q else "1"],
             race=True, label="Gen_VarExp/race-detector", min_cases=1000, timeout=3600),
+        # "using a config as a merge source does not modify the config": the store machine's merge universe (source merged
+        # directly, embedded in a map / list / ordered struct with a dotted sibling, root and non-root sources, all policies)
+        MC("MC_Store", dict(STORE_MERGE, MaxOps=2, TreeOnly=True), invariants=["NoSharing"], properties=["SourceUntouchedProp"],
+           spec="Spec", label="MC_Store/source-untouched"),
+        GEN("Gen_Store", dict(STORE_MERGE, MaxOps=2 if q else 3), "store", replay_args=["--components", "obs,at,path"],
+            label="Gen_Store/merge-source-untouched", only_devs=None, min_cases=3000),
     ]
 
 
